@@ -32,7 +32,7 @@ func concurrently[C any](cases []C, goroutines, rounds int, check func(*C) error
 			<-start
 			for r := 0; r < rounds && errs[g] == nil; r++ {
 				for i := range cases {
-					c := cases[(i+g*7)%len(cases)] // a private copy per call
+					c := cases[(i+g)%len(cases)] // staggered: goroutines are on different cases at the same time; a private copy per call
 					if err := check(&c); err != nil {
 						errs[g] = err
 						return
@@ -107,7 +107,26 @@ type concSeedCase struct {
 }
 
 var c04ConcCheck = register("C04", "c04.concurrent", func(c *concSeedCase) error {
-	return concurrently(c.Cases, c.Goroutines, c.Rounds, c04Check)
+	// expected values once, sequentially from the reference; the goroutines only call and compare
+	want := make([][]byte, len(c.Cases))
+	for i := range c.Cases {
+		want[i] = ref.Seed(string(c.Cases[i].M), string(c.Cases[i].P))
+	}
+	idx := make([]int, len(c.Cases))
+	for i := range idx {
+		idx[i] = i
+	}
+	return concurrently(idx, c.Goroutines, c.Rounds, func(i *int) error {
+		sc := &c.Cases[*i]
+		got, p := implSeed(string(sc.M), string(sc.P))
+		if p != nil {
+			return failf("C04 seed panic", "MnemonicToSeed(%s, %s) panicked: %v", short(string(sc.M)), short(string(sc.P)), p)
+		}
+		if !bytes.Equal(got, want[*i]) {
+			return failf("C04 seed value", "MnemonicToSeed(%s, %s) =\n  %x, BIP39 says\n  %x", short(string(sc.M)), short(string(sc.P)), got, want[*i])
+		}
+		return nil
+	})
 })
 
 const concRule = "concurrent variant: the same single-call oracle applied while 8 goroutines call the package at once with different arguments (thousands of calls per goroutine); non-trivial: every such batch; distinct by batch"
@@ -199,11 +218,133 @@ func TestC04_Concurrent(t *testing.T) {
 			{M: text(gen.FullWidth("abandon ability") + fmt.Sprint(round)), P: ""},
 			{M: "\u00c5ngstr\u00f6m \ufb01 " + text(fmt.Sprint(round)), P: "\u0301x"},
 			{M: text(strings.Repeat("\u3042\u3099", 70)), P: text(fmt.Sprint(round))},
+			{M: text(strings.Repeat("\u00c5ngstr\u00f6m \ufb01 ", 3000)), P: "long"},
+			{M: text(strings.Repeat("\uac00\ud55c ", 4000) + fmt.Sprint(round)), P: "long"},
 		}
-		c := &concSeedCase{Cases: cases, Goroutines: 8, Rounds: pick(2, 6)}
+		c := &concSeedCase{Cases: cases, Goroutines: 16, Rounds: pick(25, 120)}
 		cov.Eval(len(cases) * c.Goroutines * c.Rounds)
 		cov.Class("concurrent-batch")
 		cov.NonTrivial("c04.concurrent", []byte(fmt.Sprint(round, cfg.Tier)))
 		judge(t, "c04.concurrent", c04ConcCheck, c)
+	}
+}
+
+type concTextCase struct {
+	Cases      []textCase `json:"cases"`
+	Goroutines int        `json:"goroutines"`
+	Rounds     int        `json:"rounds"`
+}
+
+var c03ConcCheck = register("C03", "c03.concurrent", func(c *concTextCase) error {
+	return concurrently(c.Cases, c.Goroutines, c.Rounds, c03TextCheck)
+})
+
+type concEquivCheckCase struct {
+	Cases      []equivCheckCase `json:"cases"`
+	Goroutines int              `json:"goroutines"`
+	Rounds     int              `json:"rounds"`
+}
+
+var c10ConcCheck = register("C10", "c10.concurrent", func(c *concEquivCheckCase) error {
+	return concurrently(c.Cases, c.Goroutines, c.Rounds, c10Check)
+})
+
+type concEquivSeedCase struct {
+	Cases      []equivSeedCase `json:"cases"`
+	Goroutines int             `json:"goroutines"`
+	Rounds     int             `json:"rounds"`
+}
+
+var c11ConcCheck = register("C11", "c11.concurrent", func(c *concEquivSeedCase) error {
+	want := make([][]byte, len(c.Cases))
+	for i := range c.Cases {
+		if ref.NFKD(string(c.Cases[i].M)) != ref.NFKD(string(c.Cases[i].M2)) || ref.NFKD(string(c.Cases[i].P)) != ref.NFKD(string(c.Cases[i].P2)) {
+			harnessError("c11.concurrent: spellings are not NFKD-equal")
+		}
+		want[i] = ref.Seed(string(c.Cases[i].M), string(c.Cases[i].P))
+	}
+	idx := make([]int, 2*len(c.Cases))
+	for i := range idx {
+		idx[i] = i
+	}
+	return concurrently(idx, c.Goroutines, c.Rounds, func(k *int) error {
+		ec := &c.Cases[*k/2]
+		m, p := string(ec.M), string(ec.P)
+		if *k%2 == 1 {
+			m, p = string(ec.M2), string(ec.P2)
+		}
+		got, perr := implSeed(m, p)
+		if perr != nil || !bytes.Equal(got, want[*k/2]) {
+			return failf("C11 seed-equiv", "MnemonicToSeed(%+q, %+q) = %x (panic=%v); every spelling with this NFKD form must give %x", clip(m), clip(p), got, perr, want[*k/2])
+		}
+		return nil
+	})
+})
+
+// sentencesFor returns, per language index, a valid sentence and its entropy.
+func concSentence(l ref.Lang, k int) string { return ref.Encode(concEntropies(k)[int(l)%8], l) }
+
+func TestC03_Concurrent(t *testing.T) {
+	cov.Rule(c03Rule + " || " + concRule)
+	for round := 0; round < pick(2, 10); round++ {
+		var cases []textCase
+		for i := 0; i < 6; i++ {
+			l := ref.Lang((i*3 + round) % int(ref.NumLangs))
+			o := ref.Lang((i*3 + round + 1) % int(ref.NumLangs))
+			s, so := concSentence(l, round+i), concSentence(o, round+i+50)
+			cases = append(cases,
+				textCase{Lang: l.Name(), Text: text(s), Class: "concurrent-valid"},
+				textCase{Lang: l.Name(), Text: text(so), Class: "concurrent-other-language"}, // valid under o, not under l
+				textCase{Lang: o.Name(), Text: text(s), Class: "concurrent-other-language"},
+				textCase{Lang: l.Name(), Text: text(gen.FullWidth(s) + "\u3000"), Class: "concurrent-damaged-nonNFKD"},
+			)
+		}
+		c := &concTextCase{Cases: cases, Goroutines: 12, Rounds: pick(400, 2500)}
+		cov.Eval(len(cases) * c.Goroutines * c.Rounds)
+		cov.Class("concurrent-batch")
+		cov.NonTrivial("c03.concurrent", []byte(fmt.Sprint(round, cfg.Tier)))
+		judge(t, "c03.concurrent", c03ConcCheck, c)
+	}
+}
+
+func TestC10_Concurrent(t *testing.T) {
+	cov.Rule(c10Rule + " || " + concRule)
+	for round := 0; round < pick(2, 10); round++ {
+		var cases []equivCheckCase
+		for i := 0; i < 6; i++ {
+			l := ref.Lang((i*3 + round) % int(ref.NumLangs))
+			s := concSentence(l, round+i)
+			bad := s + " " + ref.Golden(l)[i]
+			cases = append(cases,
+				equivCheckCase{Lang: int64(implLang[l]), A: text(s), B: text(gen.FullWidth(s)), Method: "concurrent"},
+				equivCheckCase{Lang: int64(implLang[l]), A: text(bad), B: text(strings.ReplaceAll(gen.Forms["NFC"].String(bad), " ", "\u3000")), Method: "concurrent"},
+				equivCheckCase{Lang: int64(implLang[l]), A: text(s), B: text(strings.ReplaceAll(gen.Forms["NFKC"].String(s), " ", "\u00a0")), Method: "concurrent"},
+				equivCheckCase{Lang: int64(implLang[ref.Lang((int(l)+1)%int(ref.NumLangs))]), A: text(s), B: text(strings.ReplaceAll(s, " ", "\u2003")), Method: "concurrent"},
+			)
+		}
+		c := &concEquivCheckCase{Cases: cases, Goroutines: 12, Rounds: pick(400, 2500)}
+		cov.Eval(len(cases) * c.Goroutines * c.Rounds)
+		cov.Class("concurrent-batch")
+		cov.NonTrivial("c10.concurrent", []byte(fmt.Sprint(round, cfg.Tier)))
+		judge(t, "c10.concurrent", c10ConcCheck, c)
+	}
+}
+
+func TestC11_Concurrent(t *testing.T) {
+	cov.Rule(c11Rule + " || " + concRule)
+	for round := 0; round < pick(1, 6); round++ {
+		var cases []equivSeedCase
+		for i := 0; i < 5; i++ {
+			l := ref.Lang((i*2 + round) % int(ref.NumLangs))
+			s := concSentence(l, round+i)
+			p := fmt.Sprint("p\u00e9", i, round)
+			cases = append(cases, equivSeedCase{M: text(s), P: text(p), M2: text(strings.ReplaceAll(gen.Forms["NFC"].String(s), " ", "\u3000")), P2: text(gen.Forms["NFD"].String(p)), Method: "concurrent"})
+		}
+		cases = append(cases, equivSeedCase{M: text(strings.Repeat("\u00c5\ufb01 ", 2500)), P: "long", M2: text(strings.Repeat("A\u030afi\u2003", 2500)), P2: "long", Method: "concurrent-long"})
+		c := &concEquivSeedCase{Cases: cases, Goroutines: 16, Rounds: pick(15, 80)}
+		cov.Eval(2 * len(cases) * c.Goroutines * c.Rounds)
+		cov.Class("concurrent-batch")
+		cov.NonTrivial("c11.concurrent", []byte(fmt.Sprint(round, cfg.Tier)))
+		judge(t, "c11.concurrent", c11ConcCheck, c)
 	}
 }
